@@ -184,6 +184,20 @@ package lex
 //@ func parser.rune
 //@   modifies p.set, p.set[0:cap(p.set)]
 
+// ParseRegexp: a failure is always reported as a lex.ParseError value (the grammar compiler's
+// position mapping, compiler.parsePattern, asserts that type without checking: C22).
+//@ func parser.parse
+//@   trusted frame, and ASSUMED: a recorded error lies inside the pattern (parse and parseClass are not verified; the bounded C10 check "malformed" decides this for every pattern up to its bound; error/next/parseQuantifier/parseEscape, which parse calls, are proved to keep it)
+//@   requires errInside(p)
+//@   modifies *p, p.set[0:cap(p.set)]
+//@   ensures errInside(p) && sameslice(p.source, old(p.source))
+//@ func ParseError.Error
+//@   trusted formats the message with fmt.Sprintf: returns a string, writes no memory
+//@ func ParseRegexp
+//@   ensures result1 != nil ==> istype(result1, "ParseError") && len(dyn(result1, "ParseError").Msg) > 0
+//@   ensures result1 != nil ==> (let e = dyn(result1, "ParseError") in 0 <= e.Offset && e.Offset <= e.EndOffset && e.EndOffset <= len(input))
+//@   ensures result1 == nil || result0 == nil
+
 // parseEscape: the window stays inside the pattern, every recorded error lies inside the pattern,
 // an earlier error is never lost, and the accumulated code point never overflows a rune.
 //@ func parser.parseEscape
